@@ -18,6 +18,7 @@ from fractions import Fraction
 from .py2lean import TranslationError, find_class, find_func, lean_list, strip_doc
 from .common import parse, HEADER, exc_names, lean_exc
 from .c11_norm import Norm, _loads, _simple_assign
+from .c11_tz import gen_tz
 
 
 def lean_str(s: str) -> str:
@@ -104,6 +105,208 @@ def _body_text_norm(fn: ast.FunctionDef) -> str:
             body = body[:-2] + [ast.Return(value=val)]
             changed = True
     return "\n".join(ast.unparse(ast.fix_missing_locations(st)) for st in body)
+
+
+class _StrNF:
+    """Normal form of a `__str__` body (round 4): the body is evaluated symbolically into ONE expression over
+      cat(p, ...)            string concatenation; parts: 'literal', fmt(X|spec|conv) = format(X, spec) (what an f-string field,
+                             `format(X, spec)` and a `'..{0}..'.format(X)` field all do), or a string-valued sub-expression
+      slice(X, lo, hi)       X[lo:hi] with constant bounds
+      ite(C, A, B)           `if C: return A` / `return B` and `A if C else B`
+      endswith(X, 'K')       X.endswith('K') and X[-len(K):] == 'K' (equal for every X: a shorter X gives a shorter slice)
+      anything else          its source text with the locals replaced by their definitions
+    Locals are evaluated away (the expressions of a `__str__` body — attribute reads, strftime, total_seconds, int — are
+    pure, so binding one to a name, renaming it or using it twice is invisible).  f'{S}' of a value already known to be a
+    str (a cat / slice) is S.  Format specs, literals, slice bounds, the tested suffix and every call stay in the text:
+    `04d` -> `4d`, `[:-5]` -> `[:-4]`, `'+0000'` -> `'+000'`, `int(` -> `round(` all change it."""
+
+    def __init__(self, name):
+        self.name = name
+
+    def fail(self, what):
+        raise TranslationError(f"{self.name}.__str__: {what}")
+
+    @staticmethod
+    def is_str(v):
+        return v[0] in ("cat", "slice_s") or (v[0] == "ite" and _StrNF.is_str(v[2]) and _StrNF.is_str(v[3]))
+
+    def cat(self, parts):
+        flat = []
+        for p in parts:
+            for q in (p[1] if p[0] == "cat" else [p]):
+                if q[0] == "lit" and flat and flat[-1][0] == "lit":
+                    flat[-1] = ("lit", flat[-1][1] + q[1])
+                elif q != ("lit", ""):
+                    flat.append(q)
+        return ("cat", flat)
+
+    def render(self, v) -> str:
+        k = v[0]
+        if k == "lit":
+            return repr(v[1])
+        if k == "atom":
+            return v[1]
+        if k == "fmt":
+            return f"fmt({self.render(v[1])}|{v[2]}|{v[3]})"
+        if k == "cat":
+            return "cat(" + ", ".join(self.render(p) for p in v[1]) + ")"
+        if k in ("slice", "slice_s"):
+            return f"slice({self.render(v[1])}, {v[2]}, {v[3]})"
+        if k == "ite":
+            return f"ite({self.render(v[1])}, {self.render(v[2])}, {self.render(v[3])})"
+        if k == "endswith":
+            return f"endswith({self.render(v[1])}, {v[2]!r})"
+        if k == "not":
+            return f"not({self.render(v[1])})"
+        self.fail(f"render {k}")
+
+    def generic(self, e, env):
+        """source text of `e` with the locals replaced by (the rendering of) their definitions"""
+        import copy
+        nf = self
+
+        class Sub(ast.NodeTransformer):
+            def visit_Name(self, node):
+                if node.id in env and isinstance(node.ctx, ast.Load):
+                    return ast.Name(id="(" + nf.render(env[node.id]) + ")", ctx=ast.Load())
+                return node
+
+            def visit_Lambda(self, node):
+                nf.fail("lambda")
+
+        for n in ast.walk(e):
+            if isinstance(n, (ast.NamedExpr, ast.ListComp, ast.SetComp, ast.DictComp, ast.GeneratorExp, ast.Await, ast.Yield)):
+                self.fail(f"expression {type(n).__name__}")
+        return ("atom", ast.unparse(ast.fix_missing_locations(Sub().visit(copy.deepcopy(e)))))
+
+    def field(self, value, spec, conv, env):
+        v = self.ev(value, env)
+        if spec == "" and conv == -1 and self.is_str(v):
+            return v                               # format(s, '') of a str is the str
+        return ("fmt", v, spec, conv)
+
+    def const_int(self, e):
+        if e is None:
+            return None
+        if isinstance(e, ast.UnaryOp) and isinstance(e.op, ast.USub) and isinstance(e.operand, ast.Constant) and type(e.operand.value) is int:
+            return -e.operand.value
+        if isinstance(e, ast.Constant) and type(e.value) is int:
+            return e.value
+        self.fail("slice bound")
+
+    def ev(self, e, env):
+        if isinstance(e, ast.Constant) and isinstance(e.value, str):
+            return self.cat([("lit", e.value)])
+        if isinstance(e, ast.Name) and e.id in env:
+            return env[e.id]
+        if isinstance(e, ast.JoinedStr):
+            parts = []
+            for p in e.values:
+                if isinstance(p, ast.Constant):
+                    parts.append(("lit", p.value))
+                else:
+                    spec = ""
+                    if p.format_spec is not None:
+                        if not all(isinstance(x, ast.Constant) for x in p.format_spec.values):
+                            self.fail("nested format spec")
+                        spec = "".join(x.value for x in p.format_spec.values)
+                    parts.append(self.field(p.value, spec, p.conversion, env))
+            return self.cat(parts)
+        if isinstance(e, ast.Call) and not e.keywords:
+            if isinstance(e.func, ast.Name) and e.func.id == "format" and e.func.id not in env and len(e.args) in (1, 2):
+                spec = ""
+                if len(e.args) == 2:
+                    if not (isinstance(e.args[1], ast.Constant) and isinstance(e.args[1].value, str)):
+                        return self.generic(e, env)
+                    spec = e.args[1].value
+                return self.cat([self.field(e.args[0], spec, -1, env)])
+            if isinstance(e.func, ast.Attribute) and e.func.attr == "format" and isinstance(e.func.value, ast.Constant) \
+                    and isinstance(e.func.value.value, str) and not any(isinstance(a, ast.Starred) for a in e.args):
+                import string
+                parts, auto = [], 0
+                for lit, fld, spec, conv in string.Formatter().parse(e.func.value.value):
+                    if lit:
+                        parts.append(("lit", lit))
+                    if fld is None:
+                        continue
+                    if fld == "":
+                        idx, auto = auto, auto + 1
+                    elif fld.isdigit():
+                        idx = int(fld)
+                    else:
+                        self.fail(f"format field {fld!r}")
+                    if idx >= len(e.args) or "{" in (spec or ""):
+                        self.fail("format field")
+                    parts.append(self.field(e.args[idx], spec or "", ord(conv) if conv else -1, env))
+                return self.cat(parts)
+        if isinstance(e, ast.BinOp) and isinstance(e.op, ast.Add):
+            a, b = self.ev(e.left, env), self.ev(e.right, env)
+            if self.is_str(a) or self.is_str(b):
+                return self.cat([a, b])           # str + x is concatenation (or a TypeError on both sides of the bridge)
+            return self.generic(e, env)
+        if isinstance(e, ast.Subscript) and isinstance(e.slice, ast.Slice) and e.slice.step is None:
+            x = self.ev(e.value, env)
+            return ("slice_s" if self.is_str(x) else "slice", x, self.const_int(e.slice.lower), self.const_int(e.slice.upper))
+        if isinstance(e, ast.IfExp):
+            return self.ite(self.cond(e.test, env), self.ev(e.body, env), self.ev(e.orelse, env))
+        if isinstance(e, ast.Compare) or (isinstance(e, ast.UnaryOp) and isinstance(e.op, ast.Not)) or \
+                (isinstance(e, ast.Call) and isinstance(e.func, ast.Attribute) and e.func.attr == "endswith"):
+            return self.cond(e, env)
+        return self.generic(e, env)
+
+    def ite(self, c, a, b):
+        if c[0] == "not":
+            return ("ite", c[1], b, a)
+        return ("ite", c, a, b)
+
+    def cond(self, e, env):
+        if isinstance(e, ast.Name) and e.id in env:
+            return env[e.id]
+        if isinstance(e, ast.UnaryOp) and isinstance(e.op, ast.Not):
+            c = self.cond(e.operand, env)
+            return c[1] if c[0] == "not" else ("not", c)
+        if isinstance(e, ast.Call) and isinstance(e.func, ast.Attribute) and e.func.attr == "endswith" and len(e.args) == 1 \
+                and not e.keywords and isinstance(e.args[0], ast.Constant) and isinstance(e.args[0].value, str):
+            return ("endswith", self.ev(e.func.value, env), e.args[0].value)
+        if isinstance(e, ast.Compare) and len(e.ops) == 1 and isinstance(e.ops[0], (ast.Eq, ast.NotEq)):
+            l, r = e.left, e.comparators[0]
+            if isinstance(l, ast.Constant):
+                l, r = r, l
+            if isinstance(r, ast.Constant) and isinstance(r.value, str) and r.value and isinstance(l, ast.Subscript) \
+                    and isinstance(l.slice, ast.Slice) and l.slice.step is None and l.slice.upper is None \
+                    and l.slice.lower is not None and self.const_int(l.slice.lower) == -len(r.value):
+                c = ("endswith", self.ev(l.value, env), r.value)
+                return c if isinstance(e.ops[0], ast.Eq) else ("not", c)
+        return self.generic(e, env)
+
+    def body(self, stmts, env):
+        env = dict(env)
+        for i, st in enumerate(stmts):
+            if isinstance(st, ast.Assign) and len(st.targets) == 1 and isinstance(st.targets[0], ast.Name):
+                env[st.targets[0].id] = self.ev(st.value, env)
+            elif isinstance(st, ast.AnnAssign) and isinstance(st.target, ast.Name):
+                if st.value is not None:
+                    env[st.target.id] = self.ev(st.value, env)
+            elif isinstance(st, ast.Return) and st.value is not None:
+                return self.ev(st.value, env)
+            elif isinstance(st, ast.If):
+                rest = list(stmts[i + 1:])
+                return self.ite(self.cond(st.test, env), self.body(list(st.body) + rest, env), self.body(list(st.orelse) + rest, env))
+            else:
+                self.fail(f"statement {ast.unparse(st)[:50]}")
+        self.fail("no return")
+
+    def run(self, fn: ast.FunctionDef) -> str:
+        if len(fn.args.args) != 1 or fn.args.vararg or fn.args.kwarg or fn.args.kwonlyargs:
+            self.fail("signature")
+        return "return " + self.render(self.body(list(strip_doc(fn.body)), {}))
+
+
+def _str_body(cname: str, fn: ast.FunctionDef) -> str:
+    try:
+        return _StrNF(cname).run(fn)
+    except TranslationError as ex:
+        return f"<not followed: {ex}>\n" + _body_text_norm(fn)
 
 
 def _ladder(fn: ast.FunctionDef) -> list:
@@ -377,9 +580,8 @@ def gen_time() -> str:
     for n in ["__add__", "__radd__", "__sub__"]:
         out.append(f"def ts{n.strip('_').capitalize()}Body : String := " + lean_str(_body_text(_last_func(T.body, n))))
     # tz_offset_parse
-    tzp = find_func(T.body, "tz_offset_parse")
-    out.append("def tzOffsetParseBody : String := " + lean_str(_body_text(tzp)))
-    out.append("def tzParseBody : String := " + lean_str(_body_text(find_func(T.body, "tz_parse"))))
+    # (round 4) translated by symbolic execution into Lean functions (c11_tz), no longer pinned as text
+    out.append(gen_tz(T, m, find_func(T.body, "tz_offset_parse"), find_func(T.body, "tz_parse")))
     # accessors
     out.append("""
 /-- the expression language of the accessor bodies: fields / methods of `self.astimezone(new_tz)` -/
@@ -536,10 +738,64 @@ class _Dispatch:
                 return f"\n{ind}if {c} then {thn}\n{ind}else {els}"
             if isinstance(st, (ast.For, ast.While, ast.Try, ast.With, ast.Match, ast.FunctionDef)):
                 self.fail(f"statement {type(st).__name__}")
-            acc.append(ast.unparse(st))
+            acc.append(st)
             if isinstance(st, (ast.Return, ast.Raise)):
-                return lean_str("; ".join(acc))
-        return lean_str("; ".join(acc + ["<falls off the end>"]))
+                return lean_str("; ".join(self.leaf(acc)))
+        return lean_str("; ".join(self.leaf(acc) + ["<falls off the end>"]))
+
+    @staticmethod
+    def leaf(stmts: list) -> list:
+        """normal form of the statements of one path (round 4):
+        * `cast(T, x)` / `typing.cast(T, x)` is `x` (typing.cast returns its second argument unchanged at run time);
+        * `name = E` IMMEDIATELY followed by a statement that reads `name` exactly once (and nothing later reads it) is
+          folded into that statement — a value bound to a local just to be used in the next statement.  (The only
+          thing that moves is the evaluation of E past the pure name / attribute look-ups to its left in the next
+          statement.)  Everything else stays as written: which calls run with which arguments is still pinned."""
+        import copy
+
+        class Uncast(ast.NodeTransformer):
+            def visit_Call(self, node):
+                self.generic_visit(node)
+                if ast.unparse(node.func) in ("cast", "typing.cast") and len(node.args) == 2 and not node.keywords:
+                    return node.args[1]
+                return node
+
+        stmts = [Uncast().visit(copy.deepcopy(st)) for st in stmts]
+
+        def loads(node, name):
+            return sum(1 for n in ast.walk(node) if isinstance(n, ast.Name) and n.id == name and isinstance(n.ctx, ast.Load))
+
+        def binds(node, name):
+            return any(isinstance(n, ast.Name) and n.id == name and not isinstance(n.ctx, ast.Load) for n in ast.walk(node)) \
+                or any(isinstance(n, (ast.Lambda, ast.FunctionDef)) and any(a.arg == name for a in n.args.args) for n in ast.walk(node))
+
+        changed = True
+        while changed:
+            changed = False
+            for i in range(len(stmts) - 1):
+                a, b = stmts[i], stmts[i + 1]
+                sa = None
+                if isinstance(a, ast.Assign) and len(a.targets) == 1 and isinstance(a.targets[0], ast.Name):
+                    sa = (a.targets[0].id, a.value)
+                elif isinstance(a, ast.AnnAssign) and isinstance(a.target, ast.Name) and a.value is not None:
+                    sa = (a.target.id, a.value)
+                if sa is None:
+                    continue
+                name, val = sa
+                if loads(b, name) != 1 or binds(b, name) or any(loads(x, name) or binds(x, name) for x in stmts[i + 2:]):
+                    continue
+                if any(isinstance(n, (ast.Lambda, ast.ListComp, ast.SetComp, ast.DictComp, ast.GeneratorExp)) and loads(n, name)
+                       for n in ast.walk(b)):
+                    continue                      # read inside a deferred / repeated body: not the same evaluation
+
+                class Sub(ast.NodeTransformer):
+                    def visit_Name(self, node):
+                        return copy.deepcopy(val) if node.id == name and isinstance(node.ctx, ast.Load) else node
+
+                stmts[i:i + 2] = [Sub().visit(b)]
+                changed = True
+                break
+        return [ast.unparse(ast.fix_missing_locations(st)) for st in stmts]
 
     def run(self, fn: ast.FunctionDef, lname: str) -> str:
         args = [a.arg for a in fn.args.args]
@@ -580,7 +836,7 @@ def gen_conv() -> str:
     for cname in ("IntType", "UintType", "DoubleType", "BoolType", "TimestampType", "DurationType"):
         C = find_class(m, cname)
         try:
-            body = _body_text_norm(find_func(C.body, "__str__"))
+            body = _str_body(cname, find_func(C.body, "__str__"))
         except TranslationError:
             body = "<absent>"
         out.append(f"def {cname[0].lower() + cname[1:]}Str : String := " + lean_str(body))
